@@ -102,7 +102,7 @@ def run(ctx):
             if not ex:
                 rep.ob('R03.3', 'server MAC key descends from an Extract', False, show(a[0])[:300], w2, sn)
                 continue
-            ikm = ex[-1][2][1] if len(ex) else None
+            ikm = ex[0][2][1] if len(ex) else None
             ks = rfc.key_schedule(ikm, pre, Nh)
             exp = {'key': ks['km3'], 'msg': ks['hpre2'], 'released': ks['session_key']}
             for role, names in zip(('key', 'msg', 'released'), link):
